@@ -93,6 +93,50 @@ func callerSorts(callers ...string) func(c *an.Ctx, l *an.MapLoop, cfg *an.Order
 						}
 					}
 				})
+				if !sorted && len(callers) == 0 {
+					// the caller hands the slice on unchanged: its own callers may be the ones that sort
+					// (one more level: getUnknownKeys -> expandForkFromObj)
+					passesOn := false
+					an.Instrs(caller, func(in ssa.Instruction) {
+						if r, ok := in.(*ssa.Return); ok {
+							for _, res := range r.Results {
+								if t.Has(res) || t.Has(an.Strip(res)) {
+									passesOn = true
+								}
+							}
+						}
+					})
+					if passesOn && caller.Object() != nil && !caller.Object().Exported() {
+						up := c.P.Callers(caller)
+						allUp := len(up) > 0
+						for upCaller, upSites := range up {
+							for _, us := range upSites {
+								uv := us.Value()
+								if uv == nil {
+									allUp = false
+									continue
+								}
+								t2 := an.NewTaint(0, nil)
+								t2.Add(uv)
+								t2.Run()
+								found := false
+								an.Instrs(upCaller, func(in ssa.Instruction) {
+									cl, ok := in.(ssa.CallInstruction)
+									if !ok {
+										return
+									}
+									if arg, isSort := cfg.IsSort(cl); isSort && (t2.Has(arg) || t2.Has(an.Strip(arg))) {
+										found = true
+									}
+								})
+								if !found {
+									allUp = false
+								}
+							}
+						}
+						sorted = allUp
+					}
+				}
 				if !sorted {
 					return false, "caller " + an.FnName(caller) + " does not sort the returned slice"
 				}
